@@ -471,6 +471,16 @@ func (an *Analysis) handleType(typ types.Type, ctx context) Type {
 		return v
 	}
 
+	// an alias shares the node of its target, so that a type reached
+	// both directly and through an alias is analyzed (and completed) only once
+	if alias, isAlias := typ.(*types.Alias); isAlias {
+		type_ := an.handleType(types.Unalias(alias), ctx)
+		if !ctx.isInExtern {
+			an.Types[typ] = type_
+		}
+		return type_
+	}
+
 	// resolve the type
 	type_ := an.createType(typ, ctx)
 	// register it if not extern
